@@ -111,6 +111,8 @@ def one_run(case, res, sim):
                 pre_handler = recorded_handler
             elif hk == "default":
                 pre_handler = signal.default_int_handler
+            elif hk == "dfl":
+                pre_handler = signal.SIG_DFL  # (falsy enum value 0) - a real SIGINT would kill us: never raised in this state
             signal.signal(signal.SIGINT, pre_handler)
             pre_wakeup = -1
             if init.get("wakeup"):
@@ -183,7 +185,8 @@ def one_run(case, res, sim):
                             if op.get("data"):
                                 os.write(pty.master, bytes.fromhex(op["data"])[:200])
                             fl_pre = fcntl.fcntl(pty.slave, fcntl.F_GETFL)
-                            if ex["mode"] == "sigint" and ex.get("after", 0) == k and on_main:
+                            sigint_safe = init.get("handler", "default") != "dfl" or opts.get("sigint_event", False)
+                            if ex["mode"] == "sigint" and ex.get("after", 0) == k and on_main and sigint_safe:
                                 def fire():
                                     signal.raise_signal(signal.SIGINT)
                                     for _ in range(3):
@@ -334,7 +337,7 @@ def strategy():
             "vmin": st.sampled_from([0, 1, 1, 5]), "vtime": st.sampled_from([0, 0, 3]),
             "vstart_off": st.booleans(), "vstop_alt": st.booleans(),
             "fl": st.lists(st.sampled_from(["NONBLOCK", "APPEND"]), max_size=2, unique=True),
-            "handler": st.sampled_from(["default", "default", "ign", "func"]),
+            "handler": st.sampled_from(["default", "default", "ign", "func", "dfl"]),
             "wakeup": st.booleans(),
         }
     )
